@@ -243,7 +243,8 @@ var canon = map[string][]string{
 	"Print":         {"win", "segs", "col", "row", "cols", "rows", "seg", "char", "cell"},
 	"PrintTruncate": {"win", "row", "segs", "cols", "rows", "col", "truncator", "seg", "char", "w", "cell"},
 	"Println":       {"win", "row", "segs", "cols", "rows", "col", "seg", "char", "w", "cell"},
-	"Wrap":          {"win", "segs", "col", "row", "cols", "rows", "state", "segment", "seg", "rest", "chars", "total", "i", "char", "char", "cell"},
+	"splitsCluster": {"a", "b", "last", "state", "cluster"},
+	"Wrap":          {"win", "segs", "col", "row", "cols", "rows", "state", "segment", "seg", "rest", "more", "chars", "total", "i", "char", "char", "cell"},
 }
 
 // normalise renames, in place, every identifier that refers to a local of fd (go/parser's object
@@ -256,7 +257,7 @@ func normalise(fd *ast.FuncDecl) {
 	var objs []*ast.Object
 	ast.Inspect(fd, func(n ast.Node) bool {
 		id, ok := n.(*ast.Ident)
-		if !ok || id.Obj == nil || id.Name == "_" {
+		if !ok || id.Obj == nil || id.Name == "_" || id.Obj.Kind == ast.Fun {
 			return true
 		}
 		o := id.Obj
@@ -317,10 +318,14 @@ func skeletons(c *ex.Ctx, sbp *strings.Builder) {
 		return
 	}
 	sbp.WriteString("/-! Statement skeletons of the helpers: (nesting depth, kind, text) in source order; locals under their role names. -/\n")
-	for _, name := range []string{"ShowCursor", "Fill", "Origin", "Clear", "Print", "PrintTruncate", "Println", "Wrap"} {
-		fd := ex.FindFunc(f, "Window", name)
+	for _, name := range []string{"ShowCursor", "Fill", "Origin", "Clear", "Print", "PrintTruncate", "Println", "Wrap", "splitsCluster"} {
+		recv := "Window"
+		if name == "splitsCluster" {
+			recv = "" // package-level helper of Wrap
+		}
+		fd := ex.FindFunc(f, recv, name)
 		if fd == nil {
-			c.Fail("Window.%s not found", name)
+			c.Fail("window.go: %s not found", name)
 			fmt.Fprintf(sbp, "def sk%s : List (Nat × String × String) := []\n\n", name)
 			continue
 		}
